@@ -102,3 +102,65 @@ Theorem C01_step_every_list : forall L, wf_plist L = true -> forall junk v s o,
   v_fixed (vstep L junk v o) = v_fixed v.
 Proof. exact vstep_rep_nt. Qed.
 Print Assumptions C01_step_every_list.
+
+(* ... and on a list WITHOUT a VaryingSize parameter no restriction is left at all: erase()
+   with elements behind the erased ones move-assigns them forward field by field
+   (FixedErase.v: the loop invariant `linv` over the fixed stride, element j+k of the old list
+   at slot j after step k), whatever the value types are.  nt_okx = (no VaryingSize) \/ nt_ok. *)
+Theorem C01_refinement_every_list_weaker_restriction : forall L cap budget fixed aid junk bid tbid h,
+  wf_plist L = true -> 0 <= cap -> Forall (fun c => 0 <= c) fixed ->
+  let v0 := fst (mkvec L cap budget fixed aid junk bid tbid) in
+  let s0 := {| s_cap := cap; s_elems := [] |} in
+  shist_valid L (fixed_counts L fixed) s0 h -> nt_hist_okx L s0 h ->
+  let v := vrun L junk v0 h in
+  let s := srun s0 h in
+  vsize L v = Z.of_nat (length (s_elems s)) /\
+  v_cap v = s_cap s /\
+  forall i, (i < length (s_elems s))%nat ->
+    read_elem L (v_fixed v) (v_mem v) (eaddr L v (Z.of_nat i)) = nth i (s_elems s) [].
+Proof. exact refinement_every_list_x. Qed.
+Print Assumptions C01_refinement_every_list_weaker_restriction.
+
+Theorem C01_fixed_size_lists_every_history : forall L cap budget fixed aid junk bid tbid h,
+  wf_plist L = true -> has_varying L = false -> 0 <= cap -> Forall (fun c => 0 <= c) fixed ->
+  let v0 := fst (mkvec L cap budget fixed aid junk bid tbid) in
+  let s0 := {| s_cap := cap; s_elems := [] |} in
+  shist_valid L (fixed_counts L fixed) s0 h ->
+  let v := vrun L junk v0 h in
+  let s := srun s0 h in
+  vsize L v = Z.of_nat (length (s_elems s)) /\
+  v_cap v = s_cap s /\
+  forall i, (i < length (s_elems s))%nat ->
+    read_elem L (v_fixed v) (v_mem v) (eaddr L v (Z.of_nat i)) = nth i (s_elems s) [].
+Proof. exact refinement_fixed_list_every_history. Qed.
+Print Assumptions C01_fixed_size_lists_every_history.
+
+Theorem C01_step_every_list_weaker_restriction : forall L, wf_plist L = true -> forall junk v s o,
+  Rep L v (s_elems s) -> v_cap v = s_cap s -> svalid L (fixed_counts L (v_fixed v)) s o -> nt_okx L s o ->
+  Rep L (vstep L junk v o) (s_elems (sstep s o)) /\ v_cap (vstep L junk v o) = s_cap (sstep s o) /\
+  v_fixed (vstep L junk v o) = v_fixed v.
+Proof. exact vstep_rep_ntx. Qed.
+Print Assumptions C01_step_every_list_weaker_restriction.
+
+(* satisfiable with a non-trivially relocatable list and erase() in the middle:
+   (uint32, FixedSize<Tracked 8-byte type> x 2), four elements, erase(1), erase(0, 1) *)
+Definition c01fL : list param :=
+  [ {| pk := Plain; psz := 4; pal := 4; pty := TUInt |};
+    {| pk := Fixed; psz := 8; pal := 8; pty := TTrk |} ].
+Definition c01ft (b : Z) : tuple := [[[b; 0; 0; 0]]; [[b; 1; 0; 0; 0; 0; 0; 0]; [b; 2; 0; 0; 0; 0; 0; 0]]].
+Definition c01fH : list sop :=
+  [SEmplace (c01ft 1); SEmplace (c01ft 2); SEmplace (c01ft 3); SEmplace (c01ft 4); SErase 1; SEraseRange 0 1].
+Example C01_fixed_size_lists_every_history_applies :
+  wf_plist c01fL = true /\ has_varying c01fL = false /\ all_triv c01fL = false /\
+  shist_valid c01fL (fixed_counts c01fL [2]) {| s_cap := 4; s_elems := [] |} c01fH /\
+  ~ nt_hist_ok c01fL {| s_cap := 4; s_elems := [] |} c01fH /\
+  s_elems (srun {| s_cap := 4; s_elems := [] |} c01fH) = [c01ft 3; c01ft 4] /\
+  (let v := vrun c01fL (fun _ => 170) (fst (mkvec c01fL 4 0 [2] 0 (fun _ => 170) 1%nat 2%nat)) c01fH in
+   read_elem c01fL (v_fixed v) (v_mem v) (eaddr c01fL v 1) = c01ft 4).
+Proof.
+  split; [reflexivity|]. split; [reflexivity|]. split; [reflexivity|]. split; [|split; [|split]].
+  - cbn. repeat split; try lia; try discriminate; repeat constructor.
+  - cbn. unfold nt_ok. cbn. intros (_ & _ & _ & _ & [H|H] & _); [discriminate|lia].
+  - reflexivity.
+  - vm_compute. reflexivity.
+Qed.
